@@ -411,19 +411,33 @@ Definition drop_conflict_at (sb so st : schema) (b o t : content) (k : key) : bo
     | Some rb =>
       existsb (fun c =>
         (negb (has_col c st) && has_col c so
-         && match get k o with Some ro => negb (cell_eqb (cell_of so ro c) (cell_of sb rb c)) | None => false end)
+         && match get k o with Some ro => negb (cell_eqb (cell_of so ro c) (cell_of sb rb c)) && negb (cell_eqb (cell_of so ro c) None) | None => false end)
         || (negb (has_col c so) && has_col c st
-            && match get k t with Some rt => negb (cell_eqb (cell_of st rt c) (cell_of sb rb c)) | None => false end)) sb
+            && match get k t with Some rt => negb (cell_eqb (cell_of st rt c) (cell_of sb rb c)) && negb (cell_eqb (cell_of st rt c) None) | None => false end)) sb
     | None => false
     end
   else false.
 
+(* A row one side deleted and the other side left unchanged in every column of the base that it
+   still has (it may carry values in columns it added) counts as unchanged on that other side:
+   the row stays deleted (observed; the differ compares the rows in the columns of the base). *)
+Definition same_on_base (sb sx : schema) (rb rx : row) : bool :=
+  forallb (fun c => negb (has_col c sx) || cell_eqb (cell_of sb rb c) (cell_of sx rx c)) sb.
+Definition settle (sb sx sm : schema) (b x other : content) : content :=
+  map (fun kr =>
+    if fst (fst kr) =? 1 then
+      match get (fst kr) other, get (fst kr) b with
+      | None, Some rb => if same_on_base sb sx rb (snd kr) then (fst kr, proj sb sm rb) else (fst kr, proj sx sm (snd kr))
+      | _, _ => (fst kr, proj sx sm (snd kr))
+      end
+    else kr) x.
+
 (* rows are merged in the merged schema, a column a side does not have reading as NULL there *)
 Definition smerge3 (sb so st : schema) (b o t : content) : content :=
-  let sm := schema_merge sb so st in merge3 (reshape sb sm b) (reshape so sm o) (reshape st sm t).
+  let sm := schema_merge sb so st in merge3 (reshape sb sm b) (settle sb so sm b o t) (settle sb st sm b t o).
 Definition sclean (sb so st : schema) (b o t : content) : bool :=
   let sm := schema_merge sb so st in
-  clean (reshape sb sm b) (reshape so sm o) (reshape st sm t)
+  clean (reshape sb sm b) (settle sb so sm b o t) (settle sb st sm b t o)
   && forallb (fun k => negb (drop_conflict_at sb so st b o t k)) (keys3 b o t).
 
 Fixpoint schema_eqb (a b : schema) : bool :=
